@@ -262,6 +262,7 @@ func init() {
 		{"default", nil, defaultPolicy},
 		{"fixed21", func() Cleaner { return FixedBufferCleaner(2, 1, nil) }, fixedPolicy(2, 1)},
 		{"fixed33", func() Cleaner { return FixedBufferCleaner(3, 3, nil) }, fixedPolicy(3, 3)},
+		{"fixed2m1", func() Cleaner { return FixedBufferCleaner(2, -1, nil) }, fixedPolicy(2, -1)}, // asks for more than the buffer holds
 	} {
 		for _, l := range []struct{ n, q, t int }{{4, 0, 1}, {5, -1, 0}, {6, -1, 0}} {
 			vrt.Register(&vrt.Scenario{Name: fmt.Sprintf("B-seq%d-%s", l.n, v.name), Props: []string{"C01", "C02", "C03", "C12:goroutine-leak,close-"}, Quick: l.q, Thorough: l.t,
